@@ -73,8 +73,8 @@ PickOf(kind) ==
     [] kind = "data" -> RandomElement(DataPool)
     [] kind = "label" -> IF Undef = {} THEN RandomElement(InsPool) ELSE [k |-> "label", nm |-> LabName(RandomElement(Undef))]
     [] kind \in {"br", "br2"} -> [k |-> "br", mn |-> RandomElement(Jcc), tgt |-> [t |-> "l", nm |-> LabName(RandomElement(Labs)), add |-> 0]]
-    [] kind = "lref" -> IF defd = {} THEN RandomElement(InsPool)
-                        ELSE Ins("MOV", <<Rg(W, RandomElement({3, 6, 7})), [t |-> "l", nm |-> LabName(RandomElement(defd)), add |-> 0]>>)
+    \* a label used as an immediate may be defined before or after (both are supported: MOV SI,msg ... msg:)
+    [] kind = "lref" -> Ins("MOV", <<Rg(W, RandomElement({3, 6, 7})), [t |-> "l", nm |-> LabName(RandomElement(Labs)), add |-> 0]>>)
     [] kind = "dref" -> IF defd = {} THEN RandomElement(DataPool)
                         ELSE [k |-> "data", mn |-> RandomElement({"DW", "DD"}), items |-> <<E([o |-> "id", nm |-> LabName(RandomElement(defd))])>>]
     [] kind = "equuse" -> RandomElement({Ins("MOV", <<Rg(W, 1), [t |-> "l", nm |-> "CYLS", add |-> 0]>>), Ins("CMP", <<Rg(8, 5), [t |-> "l", nm |-> "CYLS", add |-> 0]>>),
